@@ -336,7 +336,8 @@ const META: Meta = Meta {
 pub fn run(env: &Env, replay: Option<&Path>) -> i32 {
     let mut report = Report::new();
     let tables = Tables::new();
-    let subs: [&dyn DynSub; 5] = [&tables, &Basis, &Product, &Spectrum, &Sequence];
+    let cold = crate::coldstart::ColdStart("C11");
+    let subs: [&dyn DynSub; 6] = [&tables, &Basis, &Product, &Spectrum, &Sequence, &cold];
     if let Some(p) = replay {
         if let Err(e) = replay_file(env, &subs, p, &mut report) {
             eprintln!("harness: {}", e);
@@ -353,5 +354,8 @@ pub fn run(env: &Env, replay: Option<&Path>) -> i32 {
     drive(env, &Product, env.tier.pick(100_000, 1_000_000), &mut report);
     drive(env, &Spectrum, env.tier.pick(100_000, 1_000_000), &mut report);
     drive(env, &Sequence, env.tier.pick(20_000, 400_000), &mut report);
+    // fresh processes whose threads make their first calls at the same moment
+    report.notes.push(crate::coldstart::NOTE.to_string());
+    drive(env, &cold, env.tier.pick(240, 6000), &mut report);
     finish(env, report, &META)
 }
